@@ -51,6 +51,7 @@ func TestVerifNative(t *testing.T) {
 	}
 	switch os.Getenv("VERIF_MODE") {
 	case "replay":
+		rt.AllocProxy = true
 		if err := rt.Load(); err != nil {
 			t.Fatal(err)
 		}
